@@ -40,6 +40,9 @@ static int parsec_composed_taskpool_cb( parsec_taskpool_t* o, void* cbdata )
 #endif
         parsec_context_add_taskpool(compound->ctx,
                                     compound->taskpool_array[completed_taskpools+1]);
+#if defined(PARSEC_VERIF)
+        PARSEC_VERIF_YIELD(PARSEC_VERIF_SITE_COMPOUND);
+#endif
     } else {
         PARSEC_DEBUG_VERBOSE(30, parsec_debug_output, "Compound taskpool completed %p",
                              compound);
